@@ -25,6 +25,10 @@ class Meter(object):
         self.installed = False
         self.codes = set()
         self.tripped = False
+        # second measure: Python function calls made anywhere (yabgp, standard library, third-party code) while a metered
+        # call runs - work done on yabgp's behalf outside its own lines (formatting a traceback, copying, address parsing)
+        self.calls = 0
+        self.call_budget = None
 
     def _on_line(self, code, line):
         if not self.active:
@@ -33,6 +37,14 @@ class Meter(object):
         if self.budget is not None and self.count > self.budget:
             self.tripped = True
             raise OverBudget('line budget %d exceeded at %s:%d' % (self.budget, code.co_filename, line))
+
+    def _on_call(self, code, offset):
+        if not self.active:
+            return
+        self.calls += 1
+        if self.call_budget is not None and self.calls > self.call_budget:
+            self.tripped = True
+            raise OverBudget('call budget %d exceeded in %s' % (self.call_budget, code.co_filename))
 
     def _collect(self):
         seen = set()
@@ -77,6 +89,7 @@ class Meter(object):
         if not self.installed:
             sys.monitoring.use_tool_id(TOOL, 'verif-meter')
             sys.monitoring.register_callback(TOOL, E.LINE, self._on_line)
+            sys.monitoring.register_callback(TOOL, E.PY_START, self._on_call)
             self.installed = True
         new = self._collect() - self.codes
         for co in new:
@@ -84,12 +97,17 @@ class Meter(object):
         self.codes |= new
         return len(self.codes)
 
-    def run(self, f, *args, budget=None, **kw):
-        """Returns (outcome, value, lines): outcome in 'ok' | 'raised' | 'budget'."""
+    def run(self, f, *args, budget=None, call_budget=None, **kw):
+        """Returns (outcome, value, lines): outcome in 'ok' | 'raised' | 'budget'.  With call_budget, Python function calls
+        are counted process-wide for the duration of the call (self.calls) and bounded too."""
         self.count = 0
+        self.calls = 0
         self.budget = budget
+        self.call_budget = call_budget
         self.tripped = False
         self.active = True
+        if call_budget is not None:
+            sys.monitoring.set_events(TOOL, E.PY_START)
         try:
             try:
                 v = f(*args, **kw)
@@ -102,6 +120,8 @@ class Meter(object):
                 out = ('raised', e)
         finally:
             self.active = False
+            if call_budget is not None:
+                sys.monitoring.set_events(TOOL, 0)
         if self.tripped and out[0] != 'budget':
             out = ('budget', 'budget exceeded (exception was swallowed or converted)')
         return out[0], out[1], self.count
